@@ -38,6 +38,24 @@ Readings (the weaker one is used where two exist):
 * set_focus_path on a path that can no longer be walked must raise IndexError (docstring); nothing
   is asserted about what it changed before failing.  ``focus_position = bad`` must change nothing.
 * mouse presses are part of the history only; no clause is asserted about where they move the focus.
+* "selectable and unselectable leaves": a leaf is whatever sits below the six container classes - a probe, a
+  probe that also has the optional cursor methods (get_cursor_coords / move_cursor_to_coords / get_pref_col, as
+  Edit has), or either of them inside the decoration widgets applications wrap leaves in (Padding, AttrMap,
+  Filler around a flow widget, BoxAdapter around a box widget).  A decorated leaf is selectable exactly when the
+  widget inside is; the containers see only the decoration.
+* "input follows the focus path" / "only the focus path is rendered with focus" after ANY history: which probes
+  are offered a key and which are drawn with focus=True is then a function of the tree as it is now (children,
+  item options, focus positions, size), not of the calls made before.  Before every key the harness builds a
+  *twin* - the same tree constructed afresh from the public state (contents, options, focus_position, container
+  parameters) with probes of its own - draws it once at the same size and sends it the same key; the real tree
+  and the twin must agree in the set of probes drawn with focus=True and in the set of probes offered the key.
+  This is weaker than demanding that the focus leaf always receives the key (a container that has no room for
+  its focus child may keep the key; whether there is room is the containers' own layout arithmetic, which is not
+  re-derived here): only the dependence on the history is asserted.  Not compared: a tree with a never-drawn
+  ListBox on the focus path (it still owes its documented first-selectable choice), a tree in which some
+  container's cached selectable() differs from the fresh twin's (the property does not say when a change
+  further down propagates), a twin that raises.  What a key does to the focus afterwards (pref_col, scroll
+  position are legitimate hidden state) is not compared.
 """
 from __future__ import annotations
 
@@ -57,7 +75,10 @@ RULE = (
     "Hypothesis op lists (<=30 ops quick, <=60 thorough) interpreted against a real widget tree and a model "
     "tree. Trees: nestings (<=3 container levels quick, <=4 thorough) of Pile/Columns/GridFlow/Frame/Overlay/"
     "ListBox, built type-directed by sizing mode (box or flow root), 0..4 children per container, leaves are "
-    "probe widgets (flow or box, selectable or not, each handling its own subset of keys). Ops: navigation "
+    "probe widgets (flow or box, selectable or not, each handling its own subset of keys; a selectable probe may "
+    "implement the optional cursor protocol; any probe may sit inside Padding (left margin 0..2), AttrMap, or the "
+    "sizing adapter of its slot - Filler around a flow probe, BoxAdapter around a box probe - or two of these). "
+    "Ops: navigation "
     "keys and characters, button-1 press at a cell given as fractions of the rendered size, focus_position = p "
     "(valid, out of range, None/str/float/foreign position type), set_focus_path (valid prefix, valid+bad "
     "element, too long, raw), contents insert/delete/slice-assign/whole-assign/clear on a chosen list-like "
@@ -66,13 +87,24 @@ RULE = (
     "assigned exactly as many children as it covers; append, extend, +=, insert with a negative or too large "
     "index, remove(value), pop(negative index), reverse(), *= 1, *= 0), Frame header/footer replace/remove "
     "(attribute and contents API), resize, save/restore of get_focus_path(). Oracle after every op for every "
-    "container of the tree. Non-trivial: >=2 container levels in the initial tree and a contents mutation op "
+    "container of the tree; before every key a twin of the tree is constructed afresh from its public state and "
+    "must be drawn with focus on, and offer the key to, the same probes (history independence). Non-trivial: >=2 container levels in the initial tree and a contents mutation op "
     "followed later by a key op. "
     "Plus a deterministic sweep through the same interpreter: every list-like container kind (Pile, Columns, "
     "GridFlow, ListBox over SimpleListWalker / SimpleFocusListWalker) x 1..4 children (thorough 1..6) x every "
     "focus position x every slice spelling (start, stop in {None} + [-(n+1), n+1], step in {None, +-1, +-2, +-3}) "
     "x {del; assignment of 0, 1, 2 children to an ordinary slice, of as many as covered to an extended slice}, "
-    "history = built with focus f, the edit, one arrow key; non-trivial there: the edit changes the list."
+    "history = built with focus f, the edit, one arrow key; non-trivial there: the edit changes the list. "
+    "Sweep 2 (arrow entry): outer Pile / Columns / ListBox (SimpleListWalker; thorough also SimpleFocusListWalker) "
+    "= one focused selectable leaf (bare or with cursor protocol) before or after an inner Pile / Columns / "
+    "GridFlow of 1..2 (thorough 1..3) leaves, over every tuple of the 12 leaf variants {unselectable, selectable, "
+    "selectable with cursor protocol} x {bare, Padding, AttrMap, sizing adapter}, x every arrow key; non-trivial: "
+    "the inner container mixes selectable and unselectable leaves or has a decorated one. "
+    "Sweep 3 (overfull): box and flow Columns of ('given', 3) columns in 7 / 4 cells, box Pile of ('given', 2) rows "
+    "in 3 / 2 rows, GridFlow whose cells wrap, ListBox over both walkers with more rows than fit, 2..5 (thorough "
+    "2..6) children, built with focus f0; history = focus := f1, character, focus := f2, character for every "
+    "(f0, f1, f2), written by focus_position or by set_focus_path; or k = 1..n-1 equal arrow keys along the axis, "
+    "then a character; non-trivial: the focus moves."
 )
 ASSUMPTIONS = [
     "probe widgets are correct urwid leaf widgets (Widget subclasses with render/rows/keypress/mouse_event)",
@@ -85,6 +117,14 @@ ASSUMPTIONS = [
     "reference for which children an edit removes / replaces; which child gets the focus afterwards is not asserted, "
     "only that it is a valid one",
     "a child object occurs once in a tree (no `contents *= 2`, no widget inserted twice): the model finds children by identity",
+    "Padding, AttrMap, Filler and BoxAdapter pass selectable(), keypress, mouse_event and render(focus) through to the "
+    "one widget they decorate (they are leaves' clothing here, not subjects of this property)",
+    "the twin is built with the public constructors from public state (contents and their option tuples, "
+    "focus_position, dividechars / min_width / cell_width / h_sep / v_sep / align, Frame parts and focus_part, the "
+    "Overlay keywords kept from the build); a ListBox twin gets body.set_focus(p) and set_focus(p) before its first "
+    "draw. A constructor is trusted to produce a tree without history, not to be correct: the real tree is "
+    "still checked against the stated clauses through the model, and a disagreement with the twin is reported as "
+    "dependence on history (a twin whose get_focus_path() differs from the real one is not compared, counted)",
 ]
 
 NAV_KEYS = ["up", "down", "left", "right", "page up", "page down", "home", "end", "tab"]
